@@ -25,7 +25,7 @@ META = {
 }
 
 
-def _langevin(names, dt, damp, temp):
+def _langevin(names, dt, damp, temp, engine="langevin"):
     import torch
 
     import seqm.MolecularDynamics as MD
@@ -39,7 +39,12 @@ def _langevin(names, dt, damp, temp):
     old = MD.esdriver
     MD.esdriver = mdh.StubEngine
     try:
-        md = MD.Molecular_Dynamics_Langevin(damp=damp, seqm_parameters=sp, timestep=dt, Temp=temp, output=out)
+        if engine == "xl":
+            md = MD.XL_BOMD(damp=damp, xl_bomd_params={"k": 4}, seqm_parameters=sp, timestep=dt, Temp=temp, output=out)
+        elif engine == "ksa":
+            md = MD.KSA_XL_BOMD(damp=damp, xl_bomd_params={"k": 4, "max_rank": 2, "err_threshold": 0.0, "T_el": 1500}, seqm_parameters=sp, timestep=dt, Temp=temp, output=out)
+        else:
+            md = MD.Molecular_Dynamics_Langevin(damp=damp, seqm_parameters=sp, timestep=dt, Temp=temp, output=out)
         with contextlib.redirect_stdout(io.StringIO()):
             md.initialize(mol)
     finally:
@@ -53,7 +58,7 @@ def probe_fdt(inp: Dict[str, Any]) -> Dict[str, Any]:
 
     import seqm.MolecularDynamics as MD
 
-    md, mol = _langevin(inp["names"], inp["dt"], inp["damp"], inp["temp"])
+    md, mol = _langevin(inp["names"], inp["dt"], inp["damp"], inp["temp"], engine=inp.get("engine", "langevin"))
     if inp.get("reconfigure"):
         # the same driver object re-used with changed settings: the coefficients in force must follow the CURRENT attributes
         import seqm.MolecularDynamics as MDm
@@ -310,6 +315,11 @@ def gen_cases(ctx: Ctx):
         dt = float(rng.choice([0.25, 0.5, 1.0]))
         cases.append(("fdt", {"names": ["h2o"], "dt": dt, "damp": float(dt / 10 ** rng.uniform(-3, 0.5)), "temp": 300.0, "seed": int(rng.integers(0, 10**6)), "stat": False,
                               "reconfigure": {"dt": float(rng.choice([0.1, 2.0])), "damp": float(rng.choice([5.0, 500.0])), "temp": 77.0}}))
+    # the damped XL-BOMD / KSA drivers inherit the update: same identities on their constants
+    for eng in (("xl", "ksa") if ctx.thorough else (["xl", "ksa"][ctx.seed % 2],)):
+        dt = float(rng.choice([0.25, 0.5]))
+        cases.append(("fdt", {"names": [["h2o"], ["ch3cl", "h2"]][int(rng.integers(0, 2))], "engine": eng, "dt": dt, "damp": float(dt / 10 ** rng.uniform(-3, 0.5)), "temp": float(rng.choice([100.0, 300.0])),
+                              "seed": int(rng.integers(0, 10**6)), "stat": True, "napply": 2}))
     # driver object re-used for another batch of the same shape (H2O -> H2S; permuted batch; other padding pattern)
     reb = [(["h2o"], ["h2s"]), (["h2o", "h2"], ["h2", "h2o"]), (["ch4", "h2o"], ["sih4", "h2s"])]
     for a, b in (reb if ctx.thorough else [reb[ctx.seed % 3]]):
